@@ -344,7 +344,7 @@ def platform_rules(ctx, prog):
             det.append(f"min(count of get_all_processors(), cgroup limit): {both}")
         ctx.ob("R5.quota", "max_processor_time=min(count,cgroup)", ok, m.loc(), "; ".join(det))
         okd = False
-        for c in prog.closures_of(cg):
+        for c in prog.closures_of(cg) + _fn_items_used(prog, cg):
             ctx.fn(c)
             for blk in c.blocks:
                 for s in blk.stmts:
@@ -462,6 +462,28 @@ def platform_rules(ctx, prog):
                 ok_skip = True
     ctx.ob("R7.cpuinfo-keys", "record-without-index-skipped", bool(idx_locals) and ok_skip and not bad, keyc.loc(),
            f"`index` is tested (not unwrapped) before the record is built: tested {ok_skip}, panicking extractors on it {bad or 'none'}")
+
+
+def _fn_items_used(prog, body):
+    """Local functions that `body` hands to an adaptor by name (`.map(convert)`) - the fn-item spelling of a closure."""
+    out = []
+    seen = set()
+    for l in body.locals:
+        for fd in l["ty"].get("fndefs", []):
+            k = strip_generics(fd)
+            cb = prog.by_key.get(k)
+            if cb and k not in seen and cb[0].crate == body.crate and cb[0].key != body.key:
+                seen.add(k)
+                out.append(cb[0])
+    for bb, t in body.calls():
+        for ta in t["callee"].get("targs", []):
+            for fd in (ta.get("fndefs", []) if isinstance(ta, dict) else []):
+                k = strip_generics(fd)
+                cb = prog.by_key.get(k)
+                if cb and k not in seen and cb[0].crate == body.crate and cb[0].key != body.key:
+                    seen.add(k)
+                    out.append(cb[0])
+    return out
 
 
 def _tuple_side(body, op, depth=8):
